@@ -103,19 +103,22 @@ def obligations(pid, mods, top):
 
 
 def leanchecker(mods):
-    """Independent kernel re-check of compiled modules, in parallel batches."""
+    """Independent kernel re-check of compiled modules (`leanchecker` replays every declaration of a module into a
+    fresh environment).  It is multi-threaded over the modules of one call, so only a few calls run concurrently."""
     names = [m for m, _ in mods]
-    nb = max(1, min(vlib.NCPU, len(names)))
-    batches = [names[i::nb] for i in range(nb)]
+    batches = [names[i:i + 12] for i in range(0, len(names), 12)]
 
     def one(b):
-        r = vlib.sh(["lake", "env", "leanchecker"] + b, cwd=vlib.LEAN, timeout=3600)
-        return r.returncode, (r.stdout + r.stderr)[-1500:]
+        try:
+            r = vlib.sh(["lake", "env", "leanchecker"] + b, cwd=vlib.LEAN, timeout=3600)
+            return r.returncode, (r.stdout + r.stderr)[-1200:]
+        except subprocess.TimeoutExpired:
+            return -1, "timeout"
     with vlib.Lock("lake"):
-        with ThreadPoolExecutor(nb) as ex:
+        with ThreadPoolExecutor(max(1, vlib.NCPU // 6)) as ex:
             res = list(ex.map(one, batches))
-    bad = [o for rc, o in res if rc != 0]
-    return {"modules": len(names), "rc": 0 if not bad else 1, "output": bad[:2]}
+    bad = [f"rc={rc} modules={b[0]}..{b[-1]} {o}" for (rc, o), b in zip(res, batches) if rc != 0]
+    return {"modules": len(names), "rc": 0 if not bad else 1, "output": bad[:3]}
 
 
 # ------------------------------------------------------------------------------------------------
